@@ -1,3 +1,3 @@
 SPECIFICATION Spec
-INVARIANT AcceptedIffDocumented RejectedWhateverOperands BracketlessLaw WrongCountReached UnaryOperandsNotArrays ExportCases
+INVARIANT AcceptedIffDocumented RejectedWhateverOperands BracketlessLaw WrongCountReached UnaryOperandsNotArrays ParseErrConsistent HeadVariants ExportCases
 CHECK_DEADLOCK FALSE
